@@ -18,9 +18,7 @@ def gen_atom(rng, liberal=False):
         s = '-'.join(['abc', s, 'hyph-en'])
     if rng.random() < 0.05:
         s = rng.choice(['#b0101', '#xAF', '12.50', ':named', 'éλx', '\U0001F600q'])
-    if liberal and rng.random() < 0.1:
-        s = s + rng.choice(['"', '|', 'a"b', '|x|', '""'])
-    return s
+    return s        # (since fix F41 the scanner ends an atom before a quote or a bar: no liberal atoms any more)
 
 
 BODY = ['a', 'b', ' ', '  ', '(', ')', ';', '\n', '\t', '\r', '""', '|', '\\', 'x y', '-', 'é', '((', '))']
@@ -42,8 +40,8 @@ def gen_qsym(rng):
 
 def gen_comment(rng):
     n = rng.choice([0, 1, 3, 8])
-    body = ''.join(rng.choice(['c', ' ', '(', ')', ';', '"', '|', 'x', '\t', '\r']) for _ in range(n))
-    return ';' + body + '\n'
+    body = ''.join(rng.choice(['c', ' ', '(', ')', ';', '"', '|', 'x', '\t']) for _ in range(n))
+    return ';' + body + rng.choice(['\n', '\n', '\n', '\r'])       # a comment ends at the first line-breaking character, LF or CR
 
 
 def gen_leaf(rng, liberal=False):
@@ -125,7 +123,7 @@ def may_touch(x, y):
         return True
     if cx == 'strlit':
         return not y.startswith('"')
-    return leaf_class(y) == 'comment'
+    return leaf_class(y) in ('comment', 'strlit', 'qsym')       # an atom ends before ; " and |
 
 
 def gen_ws(rng, nonempty):
@@ -164,7 +162,7 @@ def all_pairs_texts():
         'atom': ['a', 'x-y', '#b01', ':k', '1.5'],
         'strlit': ['"s"', '"a ""b"" ("', '""', '"\n;"'],
         'qsym': ['|q|', '|a b\n(|', '||'],
-        'comment': ['; c\n', ';\n', ';( " |\n'],
+        'comment': ['; c\n', ';\n', ';( " |\n', '; c\r', ';\r'],
     }
     seps = ['', ' ', '\t', '\n', '\r', '\r\n', '  ']
     cases = []
